@@ -74,13 +74,13 @@ CHECKS["C01"] = dict(
         "PROVED in Coq (Properties_C01.v, SdlMapProofs.v) for map-style datasets, every configuration, every snapshot interval, every interruption point k and EVERY pair of arrival schedules: "
         "state_dict() after k batches loaded into a new iterator yields exactly batches k, k+1, ... then StopIteration; closed under chains of checkpoint/resume of any length (the resumed "
         "state is again a 'good' state at the same absolute position). ITERABLE datasets (SdlIterProofs.v, SdlIterResume.v): proved for every configuration, every k and every pair of arrival schedules "
-        "when snapshot_every_n_steps is 1 — the default — (C01_iter_resume_exact_every_step) or 0 (C01_iter_resume_chain_no_snapshots: with or without dataset state, any chain); chains also for interval 1 (C01_iter_resume_chain_every_step); for EVERY interval the main-process side of a resume is proved exact for every arrival schedule given the worker "
+        "when snapshot_every_n_steps is 1 — the default — (C01_iter_resume_exact_every_step) or 0 (C01_iter_resume_chain_no_snapshots: with or without dataset state, any chain); any finite chain of checkpoint/resume also for interval 1, for datasets with their own state (C01_iter_resume_chain_every_step) and without one (the fast-forward path incl. its last-yielded-worker cross-check: C01_iter_resume_chain_every_step_fast_forward, C01_iter_resume_chain_default_interval); for EVERY interval the main-process side of a resume is proved exact for every arrival schedule given the worker "
         "entries of the state dict (C01_iter_resume_main_exact), and every worker entry a run writes is proved to be the state after the answer to an already handed-out task "
         "(C05_iter_checkpoint_never_ahead); that these entries are the LAST such states at boundaries of intervals >= 2 remains the target (small-scope theorem + correspondence). Tied to the code "
         "on every run by lockstep correspondence with REAL worker processes driven through the same arrival schedule (batch, main-process bookkeeping and abstracted state_dict() after every "
         "next(); checkpoint/resume chains at every k) and by the direct oracle resumed == uninterrupted suffix incl. the following epoch (also num_workers=0, persistent workers, shuffle, stateful samplers).",
    design="DESIGN.md 4 C01",
-   note="Proof scope: map-style without failing indices (all I, W, P, schedules, k, chains); iterable datasets: intervals 0 and 1 (default) in full, intervals >= 2 main-process side + never-ahead entries; "
+   note="Proof scope: map-style without failing indices (all I, W, P, schedules, k, chains); iterable datasets: intervals 0 and 1 (default) in full (restore and fast-forward paths, chains), intervals >= 2 main-process side + never-ahead entries; "
         "num_workers=0, persistent workers and shuffle are covered by correspondence/oracle, not by a theorem (partial in that sense). Trusted: Coq kernel + vm_compute; the arrival-scheduling multiprocessing context; harness datasets (user contract: load_state_dict(state_dict()) "
         "restores the position before exhaustion); known finding D13 matched specifically.",
    technique="Coq proof over hand-written Gallina model + lockstep correspondence under scheduled arrival (vm_compute) + direct oracle")
@@ -91,7 +91,8 @@ CHECKS["C03"] = dict(
         "the column-major interleave of the per-worker batch lists, then StopIteration; no assertion fires, no deadlock, fuel never exhausted (slots of the round-robin walk, retirement on "
         "arrival, no starvation of the shrinking window). Correspondence: one epoch under random arrival schedules with real workers, every next() compared with the model; oracle: equality with the "
         "list reference AND with torch.utils.data.DataLoader on identical arguments; free-running multi-epoch runs for num_workers=0, persistent workers incl. abandoned epochs, shuffle "
-        "(permutation), in_order=False (multiset).",
+        "(permutation), in_order=False (multiset); call scripts (user sampler depending on set_epoch(), iter() calls never advanced, a transient first-batch error then a re-run, "
+        "state_dict() calls with nothing loaded) run on StatefulDataLoader and on torch's DataLoader alike.",
    design="DESIGN.md 4 C03",
    note="Proof scope: map-style (snapshot interval <= 1 or no failing index) and iterable datasets (all configurations, all schedules); in_order=False, persistent workers across epochs and "
         "shuffle by correspondence + torch differential. Trusted: Coq kernel + vm_compute; "
@@ -102,12 +103,12 @@ CHECKS["C05"] = dict(
         "from a checkpoint after k batches is independent of the schedule it was taken under and of the schedule it is resumed under (all k, all schedule pairs). ITERABLE datasets "
         "(SdlIterProofs.v): any two schedules give the same epoch for every configuration (C05_iter_schedule_independent), and 'a checkpoint never reflects work a fast worker has prefetched "
         "beyond the last batch handed to the user' is proved for every configuration, interval, k and schedule (C05_iter_checkpoint_never_ahead: every worker-state entry is the state after "
-        "the answer to an already passed task, never after a buffered or outstanding one). Correspondence: the same "
+        "the answer to an already passed task, never after a buffered or outstanding one); for intervals 0 and 1 the continuation after ANY chain of checkpoint/resume is the same under any two arrival schedules (C05_iter_continuation_schedule_independent). Correspondence: the same "
         "checkpoint/resume history is run with REAL worker processes under four adversarial arrival-schedule pairs (always-first, always-last, rotating, random) per configuration and "
         "interruption point; streams and continuations must coincide across schedules and with the reference; checkpointed worker positions must equal the items handed to the user (never the "
         "prefetched position); each realised schedule is replayed in the model and compared step by step.",
    design="DESIGN.md 4 C05",
-   note="Proof scope: map-style in full; iterable datasets: output independence and never-ahead entries in full, continuation independence for interval 0 (C01) and on the small scope "
+   note="Proof scope: map-style in full; iterable datasets: output independence and never-ahead entries in full, continuation independence for intervals 0 and 1 (via C01's chain theorems) and on the small scope "
         "otherwise, plus adversarial-schedule correspondence. Trusted: Coq kernel + "
         "vm_compute; arrival-scheduling context (every arrival order consistent with per-worker FIFO is realisable and is a model schedule).",
    technique="Coq proof over hand-written Gallina model (schedule-quantified) + lockstep correspondence under adversarial scheduled arrival + direct oracle")
@@ -116,9 +117,9 @@ CHECKS["C10"] = dict(
         "ANY set of failing indices and EVERY schedule: the k-th outcome is an error exactly when batch k contains a failing index, every other outcome is that batch, nothing is lost after an "
         "error, StopIteration follows the last batch. The statement for all intervals is REFUTED for the faithful model by a machine-checked witness (known finding D9). Correspondence: "
         "failing-index subsets under random arrival schedules with real workers, consumer catches and continues, every next() compared with the model; oracle: consumer-visible sequence == "
-        "reference with the same exception type at exactly the failing batches; also num_workers=0, collate_fn errors, worker_init_fn errors, iterator-class IterableDatasets.",
+        "reference with the same exception type at exactly the failing batches; also num_workers=0, collate_fn errors, worker_init_fn errors (incl. a slow-starting sibling worker), iterator-class IterableDatasets, and an enumeration of exception kinds incl. StopIteration / IndexError / KeyError raised by a map-style __getitem__.",
    design="DESIGN.md 4 C10",
-   note="Trusted: Coq kernel + vm_compute; arrival-scheduling context; known finding D9 (snapshot interval > 1 after an error) is reproduced by the faithful model (OAssert) and matched specifically.",
+   note="Assumption: exception classes whose constructor needs several arguments are outside the claim (torch's own ExceptionWrapper.reraise turns them into RuntimeError for DataLoader too - upstream of pytorch/data). Trusted: Coq kernel + vm_compute; arrival-scheduling context; known finding D9 (snapshot interval > 1 after an error) is reproduced by the faithful model (OAssert) and matched specifically.",
    technique="Coq proof over hand-written Gallina model + lockstep correspondence under scheduled arrival + direct oracle")
 CHECKS["C16"] = dict(
    text="Model of iterator construction from a loaded state dict as a staged machine with a process table (SdlCompat.v) with theorems: for ALL ordered pairs (saving, loading) num_workers "
@@ -181,7 +182,7 @@ CHECKS["C09"] = dict(
         "no assertion fires, and the checkpoint after any delivered batch resumes exactly in a new iterator. For ITERABLE datasets and EVERY fault schedule (SdlIterProofs.v, "
         "C09_iter_fault_run_never_wrong): the batches handed out are a prefix of the column-major interleave, in order, each once; the history ends with StopIteration only after all of them or "
         "with the worker-death error; no assertion, and the model's 'nobody left to wait for' outcome is unreachable. Tie to the code: REAL worker processes are SIGKILLed at enumerated crash points (idle after k batches, inside the fetch of a chosen item, inside collate_fn, while the "
-        "result is pickled, inside worker_init_fn, inside iter(dataset) at a persistent worker's epoch resume; one or two deaths) under a scheduled arrival order; the realised trace is replayed "
+        "result is pickled, half-way through writing a 2 MB result into the result pipe, inside worker_init_fn, inside iter(dataset) at a persistent worker's epoch resume; one or two deaths) under a scheduled arrival order; the realised trace is replayed "
         "on the model and outcome sequences compared; oracle: delivered batches are a prefix of the reference, RuntimeError is raised within the deadline, never StopIteration short of the epoch, "
         "and the checkpoint taken before the death (pickled) resumes to the uninterrupted remainder in a fresh loader.",
    design="DESIGN.md 4 C09",
